@@ -97,7 +97,7 @@ pub enum Case {
     /// HasMember on whitelist-merkletree instantiated with an arbitrary root string
     FlatRootQuery { root: String, label: String, member: String, proof: Vec<String> },
     /// HasMember on tiered-whitelist-merkletree: one list per stage, `nroots` of the roots stored
-    TieredQuery { lists: Vec<Members>, stages: Vec<StageSpec>, nroots: usize, at: u64, label: String, member: String, proof: Vec<String> },
+    TieredQuery { lists: Vec<Members>, stages: Vec<StageSpec>, nroots: usize, #[serde(default)] upper: bool, at: u64, label: String, member: String, proof: Vec<String> },
     FlatHist { now: u64, init: FlatInit, ops: Vec<FlatOp> },
     TieredHist { now: u64, init: TieredInit, ops: Vec<TieredOp> },
     Leaf { stage: Option<u32>, sender: String, alloc: Option<u32> },
@@ -162,13 +162,13 @@ impl World {
         self.flat.insert(key, (addr.clone(), None));
         Ok(addr)
     }
-    fn tiered_for(&mut self, lists: &[Members], stages: &[StageSpec], nroots: usize) -> (Addr, Vec<std::rc::Rc<Built>>) {
-        let key = serde_json::to_string(&(lists, stages, nroots)).unwrap();
+    fn tiered_for(&mut self, lists: &[Members], stages: &[StageSpec], nroots: usize, upper: bool) -> (Addr, Vec<std::rc::Rc<Built>>) {
+        let key = serde_json::to_string(&(lists, stages, nroots, upper)).unwrap();
         if let Some((a, b)) = self.tiered.get(&key) {
             return (a.clone(), b.clone());
         }
         let built: Vec<_> = lists.iter().map(|m| self.tree(true, m)).collect();
-        let roots: Vec<String> = built.iter().take(nroots).map(|b| b.root_hex()).collect();
+        let roots: Vec<String> = built.iter().take(nroots).map(|b| if upper { b.root_hex().to_uppercase() } else { b.root_hex() }).collect();
         chain::set_time(&mut self.app, BASE);
         let init = TieredInit {
             roots,
@@ -279,8 +279,8 @@ fn run_case(w: &mut World, c: &Case) -> Outcome {
             hist.push(format!("flat:{}:{}", label, res_tag(&r)));
             Outcome { coq, viol, nontrivial: wf, hist, observed: format!("{:?}", r), steps: 1 }
         }
-        Case::TieredQuery { lists, stages, nroots, at, label, member, proof } => {
-            let (addr, built) = w.tiered_for(lists, stages, *nroots);
+        Case::TieredQuery { lists, stages, nroots, upper, at, label, member, proof } => {
+            let (addr, built) = w.tiered_for(lists, stages, *nroots, *upper);
             chain::set_time(&mut w.app, *at);
             let r = has_member(&w.app, &addr, true, member, proof);
             let wf = proof.iter().all(|h| wellformed_hash(h, 16));
@@ -298,7 +298,14 @@ fn run_case(w: &mut World, c: &Case) -> Outcome {
                             viol.push(("C14:tiered-malformed-not-error".to_string(), format!("malformed proof element answered {:?}", r)));
                         }
                         if label == &format!("own-stage{}", i) && r != Ok(true) {
-                            viol.push(("C14:tiered-member-rejected".to_string(), format!("entry of the active stage {} with its own proof answered {:?}", i, r)));
+                            if *upper {
+                                viol.push((
+                                    "C14:tiered-uppercase-root-never-matches".to_string(),
+                                    format!("roots given in upper-case hex pass instantiate, then an entry of the active stage {} with its own proof answers {:?}", i, r),
+                                ));
+                            } else {
+                                viol.push(("C14:tiered-member-rejected".to_string(), format!("entry of the active stage {} with its own proof answered {:?}", i, r)));
+                            }
                         }
                         if !listed && r == Ok(true) {
                             viol.push((
@@ -313,7 +320,7 @@ fn run_case(w: &mut World, c: &Case) -> Outcome {
             }
             let mut denoms = denom_ids();
             let t = fold_table(true, member, proof);
-            let roots: Vec<String> = built.iter().take(*nroots).map(|b| b.root_hex()).collect();
+            let roots: Vec<String> = built.iter().take(*nroots).map(|b| if *upper { b.root_hex().to_uppercase() } else { b.root_hex() }).collect();
             let coq = format!(
                 "CTwQuery {} {} {} {} {} {} {}",
                 coq_table(&t),
@@ -737,6 +744,15 @@ fn gen_cases(a: &Args) -> Vec<Case> {
         let up = b.root_hex().to_uppercase();
         cases.push(Case::FlatRootQuery { root: up.clone(), label: "own-uppercase-root".into(), member: ms[1].clone(), proof: b.proof_hex(1) });
         cases.push(Case::FlatRootQuery { root: up, label: "outsider-uppercase-root".into(), member: outsider.clone(), proof: b.proof_hex(1) });
+        {
+            let stages = three_stages(0); // one stage
+            let lists = vec![Members::Short { n: 5 }];
+            let bt = build_tree(true, &ms, None);
+            cases.push(Case::TieredQuery {
+                lists, stages: stages.clone(), nroots: 1, upper: true, at: (stages[0].start + stages[0].end) / 2,
+                label: "own-stage0".into(), member: ms[2].clone(), proof: bt.proof_hex(2),
+            });
+        }
         // the root is the digest of a single entry: empty proof
         let one = build_tree(false, &["solo".to_string()], None);
         cases.push(Case::FlatRootQuery { root: one.root_hex(), label: "single-entry-empty-proof".into(), member: "solo".into(), proof: vec![] });
@@ -762,8 +778,19 @@ fn gen_cases(a: &Args) -> Vec<Case> {
         } else {
             all.clone()
         };
+        // tree-shape tie: every position for small trees, a sample (both ends, the promoted
+        // tail, random interior positions) for larger ones
+        let tree_pos: Option<Vec<usize>> = if n <= 16 {
+            None
+        } else {
+            let mut s: BTreeSet<usize> = [0, 1, n / 2, n - 2, n - 1].into_iter().collect();
+            for _ in 0..(if a.thorough() { 24 } else { 5 }) {
+                s.insert(rng.below(n as u64) as usize);
+            }
+            Some(s.into_iter().collect())
+        };
         for blake in [false, true] {
-            cases.push(Case::Tree { blake, members: flat_ms.clone(), positions: if big { Some(sample.clone()) } else { None } });
+            cases.push(Case::Tree { blake, members: flat_ms.clone(), positions: tree_pos.clone() });
         }
         // flat contract
         let l = flat_ms.list();
@@ -771,8 +798,11 @@ fn gen_cases(a: &Args) -> Vec<Case> {
         for &i in &sample {
             cases.push(Case::FlatQuery { members: flat_ms.clone(), label: "own".into(), member: l[i].clone(), proof: b.proof_hex(i) });
         }
-        let mut picks: BTreeSet<usize> = [0, n - 1].into_iter().collect();
+        let mut picks: BTreeSet<usize> = [n - 1].into_iter().collect();
         picks.insert(rng.below(n as u64) as usize);
+        if n < 12 {
+            picks.insert(0);
+        }
         if a.thorough() {
             picks.insert(rng.below(n as u64) as usize);
             picks.insert(n / 2);
@@ -828,35 +858,37 @@ fn gen_cases(a: &Args) -> Vec<Case> {
             let mid = (stages[s].start + stages[s].end) / 2;
             for &i in &own {
                 cases.push(Case::TieredQuery {
-                    lists: lists.clone(), stages: stages.clone(), nroots: k, at: mid,
+                    lists: lists.clone(), stages: stages.clone(), nroots: k, upper: false, at: mid,
                     label: format!("own-stage{}", s), member: bt.members[i].clone(), proof: bt.proof_hex(i),
                 });
             }
             let i = own[rng.below(own.len() as u64) as usize];
-            for (tl, t) in &times {
+            // quick tier, larger sizes: only the instants around this stage's own window
+            let near = |t: u64| t + 2 >= stages[s].start && t <= stages[s].end + 2;
+            for (tl, t) in times.iter().filter(|(_, t)| a.thorough() || n <= 10 || near(*t)) {
                 cases.push(Case::TieredQuery {
-                    lists: lists.clone(), stages: stages.clone(), nroots: k, at: *t,
+                    lists: lists.clone(), stages: stages.clone(), nroots: k, upper: false, at: *t,
                     label: format!("own-stage{}@{}", s, tl), member: bt.members[i].clone(), proof: bt.proof_hex(i),
                 });
             }
             // adversarial pairs while stage s is active
             let adv = adversarial(bt, i, &mut rng, &outsider);
-            let take = if a.thorough() { adv.len() } else { 12 };
+            let take = if a.thorough() { adv.len() } else { 8 };
             let off = rng.below(adv.len() as u64) as usize;
             for q in 0..take.min(adv.len()) {
                 let (lab, m, p) = adv[(off + q) % adv.len()].clone();
-                cases.push(Case::TieredQuery { lists: lists.clone(), stages: stages.clone(), nroots: k, at: mid, label: lab, member: m, proof: p });
+                cases.push(Case::TieredQuery { lists: lists.clone(), stages: stages.clone(), nroots: k, upper: false, at: mid, label: lab, member: m, proof: p });
             }
         }
         // fewer roots than stages: the uncovered stage must never answer true
         if k >= 2 && n % 2 == 1 {
             let bt = &built[k - 1];
             cases.push(Case::TieredQuery {
-                lists: lists.clone(), stages: stages.clone(), nroots: k - 1, at: (stages[k - 1].start + stages[k - 1].end) / 2,
+                lists: lists.clone(), stages: stages.clone(), nroots: k - 1, upper: false, at: (stages[k - 1].start + stages[k - 1].end) / 2,
                 label: "stage-without-root".into(), member: bt.members[0].clone(), proof: bt.proof_hex(0),
             });
             cases.push(Case::TieredQuery {
-                lists: lists.clone(), stages: stages.clone(), nroots: k - 1, at: (stages[0].start + stages[0].end) / 2,
+                lists: lists.clone(), stages: stages.clone(), nroots: k - 1, upper: false, at: (stages[0].start + stages[0].end) / 2,
                 label: "own-stage0".into(), member: built[0].members[0].clone(), proof: built[0].proof_hex(0),
             });
         }
@@ -1178,6 +1210,9 @@ pub fn run(a: &Args) {
     }
     rep.distinct_nontrivial = distinct.len() as u64;
     rep.rule = "member lists of sizes 1..=33, 64, 65 (thorough: +127..129, 1000, 4097) incl. duplicates and minter-style leaves; rs_merkle trees with SHA-256 and BLAKE3/16; whitelist-merkletree and tiered-whitelist-merkletree instantiated with the roots; HasMember for every member's own proof and for adversarial pairs (other member's proof, outsider, truncated, extended, reordered, one character flipped, wrong-length / non-hex / non-ascii elements, near-miss member strings, A's proof presented by B, other allocation / stage), tiered at 7 instants per stage (edges +-1 ns) and with fewer roots than stages; instantiate guard probes; every Execute message kind (and JSON that is not an ExecuteMsg) from admin / second admin / stranger at guard edges, then MerkleRoot(s). evaluations = contract calls + tree positions checked. Non-trivial = distinct case that is not a mere parse/funds rejection (query with a well-formed proof; history whose instantiate and at least one execute succeeded; tree; leaf with a number).".into();
+    // stride order so that the six shards carry similar weight (cases of one kind are adjacent)
+    let nn = coq_cases.len();
+    let coq_cases: Vec<String> = (0..6).flat_map(|s| (s..nn).step_by(6)).map(|i| coq_cases[i].clone()).collect();
     out.write_cases("C14", "From Coq Require Import Uint63. From LP Require Import Pay Merkle C14Corr.", "c14_case", "c14_check", &coq_cases, 6, &mut rep);
     rep.notes.push("assumption named by the tie: no generated member string is 2*L bytes long (the one shape that can be is a bare 64-character contract address against the SHA-256 tree)".into());
     for c in &cases {
